@@ -68,10 +68,10 @@ Section P.
       rewrite !to_Z_zq. reflexivity.
   Qed.
 
-  Lemma rl_events_g fmt attrs : forall evs decls i n rest st,
+  Lemma rl_events_g first fmt attrs : forall evs decls i n rest st,
     lwf_events fmt attrs i decls evs -> data st = [] ->
-    RL fmt attrs (List.length (render_events evs) + n) (render_events evs ++ rest)%list st
-    = RL fmt attrs n rest (add_events st (map (fun e => parse_rows fmt attrs (e_rows e)) evs)).
+    RL first fmt attrs (List.length (render_events evs) + n) (render_events evs ++ rest)%list st
+    = RL first fmt attrs n rest (add_events st (map (fun e => parse_rows fmt attrs (e_rows e)) evs)).
   Proof.
     induction evs as [|e evs IH]; intros decls i n rest st H Hd.
     - cbn. unfold add_events. rewrite app_nil_r. destruct st; cbn in *; subst; reflexivity.
@@ -80,7 +80,7 @@ Section P.
       unfold render_events. cbn [flat_map]. fold (render_events evs).
       unfold render_event. rewrite <- !app_comm_cons, <- !app_assoc.
       cbn [List.length]. rewrite !app_length. cbn [List.length].
-      match goal with |- read_loop _ _ _ _ _ _ ?k _ _ = _ =>
+      match goal with |- read_loop _ _ _ _ _ _ _ ?k _ _ = _ =>
         replace k with (S (List.length (e_rows e) + (S (List.length (render_events evs) + n))))%nat by lia end.
       cbn [read_loop app]. rewrite Hhk.
       rewrite (rl_rows tok_float tok_int pdg_valid) by exact Hrows.
@@ -110,7 +110,7 @@ Section P.
     hdr_ok d fmt attrs -> evs <> [] -> lwf_events fmt attrs 0 decls evs ->
     wf_last tok_int nlast (e_foot (last evs {| e_head := []; e_rows := []; e_foot := [] |})) ->
     LOAD (d_h1 d :: d_h2 d :: d_h3 d :: render_events evs) SelAll
-    = (st <- RL fmt attrs (total_decl decls) (render_events evs)
+    = (st <- RL 0%Z fmt attrs (total_decl decls) (render_events evs)
                {| plist := []; data := []; counts := counts_decl 0 decls; cut := 0 |} ;;
        fin <- (if (Z.of_nat (List.length (plist st)) =? Z.of_nat nlast - cut st)%Z
                then Ok ((Z.of_nat nlast - cut st)%Z, counts st) else Err IndexError) ;;
@@ -135,7 +135,7 @@ Section P.
     rewrite String.eqb_refl. cbn [andb]. rewrite Hlt, Hti. cbn [bind]. rewrite to_Z_zq.
     cbn [app scan]. rewrite Hs1, Hs2, Hs3.
     pose proof (scan_events_g fmt attrs evs decls 0 [] Hev) as Hsc. rewrite app_nil_r in Hsc. rewrite Hsc.
-    cbn [scan bind fst snd num_skip num_read]. rewrite !app_nil_r.
+    cbn [scan bind fst snd num_skip num_read sel_first sel_counts]. rewrite !app_nil_r.
     destruct (counts_decl 0 decls) eqn:Ec.
     { destruct decls; [destruct evs; [congruence|contradiction]|discriminate]. }
     rewrite <- Ec. cbn [bind]. rewrite read_all_decl, Nat2Z.id.
@@ -164,7 +164,7 @@ Section P.
     intros Hh Hne Hev Hlast Hshort. rewrite (load_prefix d fmt attrs evs decls nlast Hh Hne Hev Hlast).
     replace (total_decl decls)
       with (List.length (render_events evs) + S (total_decl decls - List.length (render_events evs) - 1))%nat by lia.
-    pose proof (rl_events_g fmt attrs evs decls 0 (S (total_decl decls - List.length (render_events evs) - 1)) []
+    pose proof (rl_events_g 0%Z fmt attrs evs decls 0 (S (total_decl decls - List.length (render_events evs) - 1)) []
                  {| plist := []; data := []; counts := counts_decl 0 decls; cut := 0 |} Hev eq_refl) as Hrl.
     rewrite app_nil_r in Hrl. rewrite Hrl. reflexivity.
   Qed.
@@ -206,7 +206,7 @@ Section P.
     unfold render_event in Hlong. rewrite app_length in Hlong. cbn [List.length] in Hlong.
     rewrite app_length in Hlong. cbn [List.length] in Hlong.
     replace (total_decl (ds ++ [dl])) with (List.length (render_events evs) + (S (List.length (e_rows elast) + 0)))%nat by lia.
-    pose proof (rl_events_g fmt attrs evs ds 0 (S (List.length (e_rows elast) + 0))
+    pose proof (rl_events_g 0%Z fmt attrs evs ds 0 (S (List.length (e_rows elast) + 0))
                   (e_head elast :: e_rows elast ++ [e_foot elast])
                   {| plist := []; data := []; counts := counts_decl 0 (ds ++ [dl]); cut := 0 |} Hds eq_refl) as Hrl.
     rewrite Hrl. clear Hrl.
@@ -243,7 +243,7 @@ Section P.
     pose proof (scan_events_g fmt attrs evs _ 0 [h] (wf_lwf fmt attrs evs 0 Hev)) as Hsc.
     rewrite Hsc. cbn [scan]. rewrite Hks, H2, H4, Hl, Hc. cbn [scan bind fst snd app].
     rewrite counts_decl_from, !to_Z_zq.
-    cbn [num_skip num_read bind].
+    cbn [num_skip num_read bind sel_first sel_counts].
     destruct (counts_from 0 evs ++ [(Z.of_nat (List.length evs), Z.of_nat dcl)])%list eqn:Ec.
     { destruct (counts_from 0 evs); discriminate. }
     rewrite <- Ec. cbn [bind].
@@ -268,7 +268,7 @@ Section P.
       - destruct Hev as ((Hk & _) & _). unfold render_events. cbn [flat_map]. unfold render_event at 1. cbn [app].
         rewrite (Hh _ Hk). reflexivity. }
     rewrite Hfirst. cbn [bind].
-    pose proof (rl_events_g fmt attrs evs _ 0 (dcl + 2) [h]
+    pose proof (rl_events_g 0%Z fmt attrs evs _ 0 (dcl + 2) [h]
                  {| plist := []; data := []; counts := (counts_from 0 evs ++ [(Z.of_nat (List.length evs), Z.of_nat dcl)])%list; cut := 0 |}
                  (wf_lwf fmt attrs evs 0 Hev) eq_refl) as Hrl.
     rewrite Hrl. replace (dcl + 2)%nat with (S (S dcl)) by lia. cbn [read_loop]. rewrite Hkl. reflexivity.
